@@ -6,23 +6,27 @@ def alarms(path):
     if not os.path.exists(path):
         return None
     for l in open(path):
-        m = re.match(r'(C\d\d) rc=(\d+) violations=(\d+) first=\[(.*?)( no-failing-input-found)?\]', l)
+        m = re.match(r'(C\d\d) rc=(\d+) violations=(\d+) first=\[(.*?)( no-failing-input-found| failing-input-replayed-on-the-real-code)?\]', l)
         if m and m.group(2) == '1':
             out.append((m.group(1), m.group(4)))
     return out
 print("| change | file / function | what it breaks | own check | other checks that alarm | first failed obligation |")
 print("|--------|-----------------|----------------|-----------|--------------------------|-------------------------|")
 tot = caught = 0
-for d in sorted(glob.glob('seeded/*/*/')) + sorted(glob.glob('seeded2/*/*/')) + sorted(glob.glob('seeded3/*/*/')):
+for d in sorted(glob.glob('seeded/*/*/')) + sorted(glob.glob('seeded2/*/*/')) + sorted(glob.glob('seeded3/*/*/')) + sorted(glob.glob('seeded4/*/*/')) + sorted(glob.glob('seeded5/*/*/')):
     pid, k = d.split('/')[1], d.split('/')[2]
-    if d.startswith('seeded3'):
+    if d.startswith('seeded5'):
+        k = 'r5-' + k
+    elif d.startswith('seeded4'):
+        k = 'r4-' + k
+    elif d.startswith('seeded3'):
         k = 'r3-' + k
     elif d.startswith('seeded2'):
         k = 'r2-' + k
     meta = json.load(open(d + 'meta.json')) if os.path.exists(d + 'meta.json') else {}
-    al = alarms(d + 'result.all.txt') or []
+    al = (alarms(d + 'result.all.txt') or []) + [a for a in (alarms(d + 'result.txt') or []) if a[0] == pid]
     own = [a for a in al if a[0] == pid]
-    others = [a[0] for a in al if a[0] != pid]
+    others = sorted(set(a[0] for a in al if a[0] != pid))
     tot += 1
     caught += bool(own)
     files = ', '.join(os.path.basename(f) for f in meta.get('files', []))
